@@ -117,9 +117,14 @@ func buildQuery(fr *FuncResult, o *Oblig) string {
 	sb.WriteString("; obligation " + o.Name + " : " + strings.ReplaceAll(o.Src, "\n", " ") + "\n")
 	sb.WriteString("(assert " + o.Reach + ")\n")
 	sb.WriteString("(assert (not " + o.Goal + "))\n")
+	names := append([]string{}, fr.Inputs...)
+	for _, a := range fr.Aliases {
+		sb.WriteString(fmt.Sprintf("(declare-const %s %s)\n(assert (= %s %s))\n", a[0], a[1], a[0], a[2]))
+		names = append(names, a[0])
+	}
 	sb.WriteString("(check-sat)\n")
-	if len(fr.Inputs) > 0 {
-		sb.WriteString("(get-value (" + strings.Join(fr.Inputs, " ") + "))\n")
+	if len(names) > 0 {
+		sb.WriteString("(get-value (" + strings.Join(names, " ") + "))\n")
 	}
 	return sb.String()
 }
